@@ -1,0 +1,9 @@
+//go:build verif
+
+package redis
+
+// VerifState exposes the private state of the reply writer: len(buf), w, err.
+func (w *Writer) VerifState() (bufLen int, pos int, err bool) { return len(w.buf), w.w, w.err }
+
+// VerifBuf returns the whole backing array (including stale bytes beyond w).
+func (w *Writer) VerifBuf() []byte { return w.buf }
